@@ -49,7 +49,7 @@ def make_file(path, epochs):
 
 
 def gen_epochs(rng, n, style):
-    yy = rng.choice([57, 78, 99, 0, 1, 20, 49]) if style != "pivot" else 49
+    yy = rng.choice([57, 78, 99, 0, 1, 20, 49, 50, 53, 56]) if style != "pivot" else 49
     e = []
     day = Fraction(rng.randrange(1, 300))
     if style == "yearend":  # sets on the last days of a (leap or common) year and the first of the next: days 365, 366, 001
@@ -66,7 +66,7 @@ def gen_epochs(rng, n, style):
         if i:
             t += step
         d = EPOCH0 + datetime.timedelta(days=int(t // 1))
-        if not (1957 <= d.year <= 2049):
+        if not (1950 <= d.year <= 2049):
             break
         doy = (d.date() - datetime.date(d.year, 1, 1)).days + 1
         frac = int((t - t // 1) * 10 ** 8)
